@@ -5,7 +5,13 @@ import vlib
 
 
 def make(prop, oracle_fns, streams, rule, explanation, assumptions):
-    """streams: list of (tag, n_quick, n_thorough, gen kwargs, tweak(world, rng) or None)."""
+    """streams: list of (tag, n_quick, n_thorough, gen kwargs, tweak(world, rng) or None[, run_kw(scenario, world) -> kwargs of run_world])."""
+    run_kw = {st[0]: st[5] for st in streams if len(st) > 5}
+    streams = [st[:5] for st in streams]
+
+    def kwargs_of(sc, w):
+        f = run_kw.get(sc.tag)
+        return f(sc, w) if f else {}
 
     def build(ctx, tier):
         sw = []
@@ -19,13 +25,13 @@ def make(prop, oracle_fns, streams, rule, explanation, assumptions):
         return sw
 
     def correspondence(ctx):
-        runs = runprops.run_scenarios(ctx, build(ctx, ctx["tier"]))
+        runs = runprops.run_scenarios(ctx, build(ctx, ctx["tier"]), kwargs_of=kwargs_of)
         findings, broken, stats = runprops.judge(prop, runs, oracle_fns)
         return runprops.result(prop, ctx, runs, findings, broken, stats, rule, explanation)
 
     def search(ctx, unexplained):
         ctx2 = dict(ctx, tier="thorough")
-        runs = runprops.run_scenarios(ctx2, build(ctx2, "thorough"))
+        runs = runprops.run_scenarios(ctx2, build(ctx2, "thorough"), kwargs_of=kwargs_of)
         findings, _, _ = runprops.judge(prop, runs, oracle_fns)
         return findings[:3]
 
@@ -41,7 +47,7 @@ def make(prop, oracle_fns, streams, rule, explanation, assumptions):
                 w = runprops.world_for(tag, sc["world_seed"], sc["index"], **kw)
                 if tweak:
                     tweak(w, vlib.rng_for(sc["world_seed"], "%s/tweak/%d" % (tag, sc["index"])))
-                runs = runprops.run_scenarios(ctx, [(runprops.Scenario(tag, sc["world_seed"], sc["index"]), w)])
+                runs = runprops.run_scenarios(ctx, [(runprops.Scenario(tag, sc["world_seed"], sc["index"]), w)], kwargs_of=kwargs_of)
                 findings, broken, _ = runprops.judge(prop, runs, oracle_fns)
                 print("result:", runs[0]["rr"].result, "model verdict:", runs[0]["verdict"][:300])
                 for f in findings:
